@@ -144,6 +144,57 @@ def _skel_mod():
     return _skel
 
 
+FAST_NAMES = {'_entrySet': 'entry_set', '_exitSet': 'exit_set', '_tmpStates': 'tmp_states', '_targetSet': 'target_set', '_transSet': 'trans_set', '_conflicts': 'conflicts',
+              '_configuration': 'config', '_history': 'history', '_invocations': 'invocations', '_initializedData': 'initialized_data'}
+# differences between the fast engine and the C template that are not differences of the algorithm (confirmed by reading)
+ACCEPTED_FAST = {
+    ('F', 'CLEAR', ('entry_set',)): 'member cleared at the top of step(); the C local is assigned by bit_copy(entry_set, target_set) before its first use',
+    ('F', 'CLEAR', ('tmp_states',)): 'member cleared at the top of step(); the C local is assigned by bit_copy before its first use',
+    ('C', 'OR', ('exit_set', 'transitions[i].exit_set')): 'the C template ORs the precomputed exit set of the transition; the engine marks the interval of states in a loop',
+}
+
+
+def fast_engine_updates(fb):
+    """multiset of whole-set updates (OR / AND / AND_NOT / XOR / COPY / CLEAR) in FastMicroStep::step, operands renamed to the C template's"""
+    import collections
+    f = fb.fn('uscxml::FastMicroStep::step')
+
+    def name(n):
+        n = strip(n)
+        t = ' '.join(fb.text(n).split())
+        t = re.sub(r'USCXML_GET_STATE\(([^)]*)\)', r'states[\1]', t)
+        t = re.sub(r'USCXML_GET_TRANS\(([^)]*)\)', r'transitions[\1]', t)
+        for k, v in FAST_NAMES.items():
+            t = t.replace(k, v)
+        return re.sub(r'\s+', '', t)
+    F = collections.Counter()
+    site = {}
+    for n in f.walk():
+        if n['k'] in ('CXXOperatorCallExpr', 'CompoundAssignOperator', 'BinaryOperator') and n.get('op') in ('|=', '&=', '^=', '='):
+            kids = n['c'][1:] if n['k'] == 'CXXOperatorCallExpr' else n['c']
+            if len(kids) != 2:
+                continue
+            l, r = strip(kids[0]), strip(kids[1])
+            lt = (l.get('t') or '')
+            if 'dynamic_bitset' not in lt or 'reference' in lt:
+                continue           # single-bit writes (BIT_SET_AT / BIT_CLEAR) are compared by the dimension typing, not here
+            neg = False
+            rr = r
+            if rr['k'] == 'CXXOperatorCallExpr' and rr.get('op') == '~':
+                neg, rr = True, strip(rr['c'][1])
+            if 'dynamic_bitset' not in (rr.get('t') or ''):
+                continue
+            op = {'|=': 'OR', '&=': 'AND_NOT' if neg else 'AND', '^=': 'XOR', '=': 'COPY'}[n['op']]
+            key = (op, (name(l), name(rr)))
+            F[key] += 1
+            site.setdefault(key, locstr(n))
+        if n['k'] == 'CXXMemberCallExpr' and n.get('callee', {}).get('q', '').split('::')[-1] == 'reset' and 'dynamic_bitset' in n.get('callee', {}).get('q', '') and len(n['c']) == 1 and n['c'][0].get('c'):
+            key = ('CLEAR', (name(n['c'][0]['c'][0]),))
+            F[key] += 1
+            site.setdefault(key, locstr(n))
+    return F, site
+
+
 def run(rep, tier):
     rep.rule('R04.1', 'template reconstruction: writeIncludes/writeMacros/writeTypes/writeHelpers/writeFSM are straight-line writers of a fixed text (no statement other than stream insertions; non-literal operands only the two index types, the two array sizes and the loop-index type); the reconstructed text is accepted by clang as C')
     rep.rule('R04.2', 'dimension typing of the emitted step function: a bit array sized by the states (transitions) macro is only indexed with `e >> 3` where e ranges over states (transitions); the state (transition) table only with a state (transition) index; every bit_* helper call gets arrays and a byte count of one and the same domain')
@@ -153,6 +204,9 @@ def run(rep, tier):
     rep.rule('R04.6', 'skeleton agreement: the event/phase skeleton of the emitted uscxml_step equals the fast engine\'s (callbacks through on_exit/on_entry/on_transition/invoke/raise_done_event, ctx->config updates)')
     rep.rule('R04.7', 'index width provenance: the type chosen for the loop variables i, j, k can hold both loop bounds of every emitted machine, i.e. it is selected from the same maxima the two *_TYPE macros come from')
     rep.assume('same trace as the interpreter per chart, per-document tables (C05) and the executable-content functions are not decided here')
+    rep.rule('R04.15', 'initialisation order: the emitted step function runs the document\'s global script after the root\'s data model was initialised (the engines treat it as entry code of <scxml>)')
+    rep.rule('R04.14', 'delays mean the same in the generated machine: the generator converts the delay attribute like the executor does (seconds through a floating type so that fractions survive, the same case rule for the unit)')
+    rep.rule('R04.13', 'sibling agreement with the interpreter: every whole-set update (OR / AND / AND_NOT / XOR / COPY / CLEAR with its operands) of FastMicroStep::step, from which the C template was derived, occurs equally often in the emitted C step function (accepted differences are listed with reasons)')
     rep.rule('R04.11', 'sibling agreement: every set test (operands + polarity) and every set update (operation, destination, source) of the emitted C step function occurs equally often in the emitted Promela step (same comparison as C06 R06.2 / R06.4, seen from the C side)')
     rep.rule('R04.10', 'history default: the emitted step function takes a history state\'s default transition exactly when nothing is remembered (like the engines, C01 R01.16)')
     rep.rule('R04.12', 'questions about a whole bit set use the whole set: the emitted step function does not read a state- or transition-sized bit array through a literal byte index (outside the BIT_* macros); "is the root the only ancestor" is asked of the parent index or of all bytes')
@@ -403,6 +457,76 @@ def run(rep, tier):
     from . import C06
     fbs = facts.FactBase(C06.TUS)
     C06.compare_siblings(rep, fbs, 'R04.11', 'R04.11')
+
+    # ---- R04.15 the global script is the root's entry code: it runs after the root's data was initialised
+    cg0 = cgs[alts[0]]
+    st0 = cg0.fn('uscxml_step')
+    g15 = cfgm.CFG(st0)
+    scripts = [n_ for n_ in st0.walk() if n_['k'] == 'CallExpr' and any(x['k'] == 'MemberExpr' and x['ref'].get('name') == 'script' for x in sub(n_['c'][0])) and n_['id'] in g15.pos]
+    # the data-initialisation block of the entry loop: `if (!BIT_HAS(i, initialized_data)) { init; BIT_SET_AT(..) }`; having passed
+    # its test means the data of state i is initialised (now or earlier)
+    marks = []
+    for n_ in st0.walk():
+        if n_['k'] == 'IfStmt' and any(x['k'] == 'MemberExpr' and x['ref'].get('name') == 'initialized_data' for x in sub(n_['c'][0])) and any(
+                x['k'] == 'MemberExpr' and x['ref'].get('name') == 'exec_content_init' for x in sub(n_['c'][1])):
+            marks += [x['id'] for x in sub(n_['c'][0]) if x['id'] in g15.pos]
+    if not scripts or not marks:
+        raise AnalysisBroken('emitted step function: call of machine->script (%d) or the initialized_data marker (%d) not found' % (len(scripts), len(marks)))
+    for sc in scripts:
+        w15 = g15.can_reach((g15.entry, -1), [sc['id']], avoid=marks)
+        rep.check(w15 is None, 'R04.15', 'emitted step|global script after data', 'generated uscxml_step line %d' % sc['loc'][1], 'the global <script> of the document is called %s' % (
+            'only after data of an entered state (the root first) was initialised' if w15 is None else 'on a path on which NO data was initialised yet (the PRISTINE block): <data id="x" expr="0"/> then overwrites what the script assigned; both engines run the script as entry code of <scxml>, after its data'))
+
+    # ---- R04.14 delay literals are converted like the executor converts them
+    def delay_arms(fbx, qual):
+        out = []
+        for f_ in fbx.funcs.values():
+            if not f_.q.startswith(qual) or not f_.d.get('body'):
+                continue
+            for n_ in f_.walk():
+                if n_['k'] == 'IfStmt' and any(x['k'] == 'StringLiteral' and x.get('str') == 's' for x in sub(n_['c'][0])) and any(
+                        x['k'] == 'MemberExpr' and x['ref'].get('name') == 'unit' for x in sub(n_['c'][0])):
+                    conv = [x for x in sub(n_['c'][1]) if x.get('callee', {}).get('q', '') == 'uscxml::strTo']
+                    ci = any(x.get('callee', {}).get('q', '').split('::')[-1] == 'iequals' for x in sub(n_['c'][0]))
+                    out.append((f_, n_, [(x.get('t') or '') for x in conv], ci))
+        return out
+    fbe = facts.FactBase(['src/uscxml/interpreter/BasicContentExecutor.cpp'])
+    ex_arms = delay_arms(fbe, 'uscxml::BasicContentExecutor::')
+    c_arms = delay_arms(fb, 'uscxml::ChartToC::')
+    if not ex_arms or not c_arms:
+        raise AnalysisBroken('delay conversion: the seconds arm was not found in %s' % ('the executor' if not ex_arms else 'ChartToC'))
+    ex_t, ex_ci = ex_arms[0][2], ex_arms[0][3]
+    for f_, n_, ts_, ci_ in c_arms:
+        frac_ok = all(t_ in ('double', 'float', 'long double') for t_ in ts_) or not all(t_ in ('double', 'float', 'long double') for t_ in ex_t)
+        rep.check(frac_ok and ci_ == ex_ci, 'R04.14', '%s|seconds arm' % f_.q.split('::')[-1], locstr(n_), 'the generator converts a delay in seconds through %s and compares the unit %s; the executor uses %s and %s%s' % (
+            ts_, 'ignoring case' if ci_ else 'exactly', ex_t, 'ignoring case' if ex_ci else 'exactly',
+            '' if frac_ok and ci_ == ex_ci else ': delay="0.5s" is emitted as 0 ms (and "1.5s" as 1000 ms), "S" / "MS" are taken for milliseconds'))
+
+    # ---- R04.13 the emitted C step function and the fast engine (from which it was derived) apply the same whole-set updates
+    import collections
+    fbf = facts.FactBase(['src/uscxml/interpreter/FastMicroStep.cpp'])
+    F, fsite = fast_engine_updates(fbf)
+    ctext13, _ = reconstruct(fb, rep, alts[0])
+    cstep13 = ctext13[ctext13.index('int uscxml_step'):]
+    Cc = collections.Counter()
+    for m in C06.C_RE.finditer(cstep13):
+        neg, fn_, args = m.groups()
+        if fn_.startswith('bit_has'):
+            continue
+        a_ = [C06.norm(x) for x in args.split(',')][:-1]
+        Cc[(C06.CMAP[fn_], tuple(a_))] += 1
+    rep.minimum('R04.13', sum(F.values()), 15, 'whole-set updates in FastMicroStep::step')
+    for key in sorted(set(F) | set(Cc), key=str):
+        fcnt, ccnt = F.get(key, 0), Cc.get(key, 0)
+        what = '%s(%s)' % (key[0], ', '.join(key[1]))
+        if fcnt == ccnt:
+            rep.ok('R04.13', what, 'in the fast engine and in the emitted C step function (%d time(s))' % fcnt)
+            continue
+        side = 'F' if fcnt > ccnt else 'C'
+        if (side, key[0], key[1]) in ACCEPTED_FAST:
+            rep.ok('R04.13', what, 'accepted difference: ' + ACCEPTED_FAST[(side, key[0], key[1])])
+            continue
+        rep.fail('R04.13', what, fsite.get(key, 'src/uscxml/transform/ChartToC.cpp'), '%s occurs %d time(s) in FastMicroStep::step and %d time(s) in the emitted C step function: the two are the same algorithm written twice, one of them was changed alone' % (what, fcnt, ccnt))
     # ---- R04.10 history default in the emitted step function
     for alt, cg in cgs.items():
         hn, hd = _skel_mod().history_default_condition(cg.fn('uscxml_step'))
